@@ -196,6 +196,8 @@ impl Segment {
             self.start_offset, self.partition_id, self.topic_id, self.stream_id);
         self.initialize_writing().await?;
         self.initialize_reading().await?;
+        #[cfg(iggy_verif)]
+        crate::verif::fs_event("segment_create", &self.log_path);
         info!("Saved segment log file with start offset: {} for partition with ID: {} for topic with ID: {} and stream with ID: {}",
             self.start_offset, self.partition_id, self.topic_id, self.stream_id);
         Ok(())
